@@ -68,3 +68,22 @@ fn("util/topological.py::sort_as_subsets",
        "any(True for x in todo_set)",
        "all(x in allitems and any(t[1] is x and t[0] in todo_set for t in tuples) for x in todo_set)"]},
    modifies=[], returns="none", harness="topological.sort_as_subsets")
+
+# concrete-only clause for sort_as_subsets: the raise happens iff the induced graph on the items has a cycle
+from pyvc.contract import FUNCS as _F
+_F["util/topological.py::sort_as_subsets"].c_raises = {"CircularDependencyError": "has_cycle(tuples, allitems)"}
+
+# ---- bounded-only contracts (not yet under proof; DESIGN §5 C19: find_cycles soundness/completeness invariants are Appendix A.3)
+fn("util/topological.py::sort", props=["C19"], proof=False,
+   types={"tuples": "seq", "allitems": "seq"},
+   requires=["no_dups(allitems)", "all(is_tuple(t, 2) for t in tuples)"],
+   c_ensures=["no_dups(out) and setof(out) == setof(allitems)",
+              "all(implies(t[0] in allitems and t[1] in allitems and t[0] is not t[1], index(out, t[0]) < index(out, t[1])) for t in tuples)"],
+   c_raises={"CircularDependencyError": "has_cycle(tuples, allitems)"},
+   harness="topological.sort")
+
+fn("util/topological.py::find_cycles", props=["C19"], proof=False,
+   types={"tuples": "seq", "allitems": "seq"},
+   requires=["all(is_tuple(t, 2) for t in tuples)"],
+   c_ensures=["forall(lambda x: (x in result) == on_cycle(tuples, x))"],
+   harness="topological.find_cycles")
